@@ -1,7 +1,8 @@
 #!/bin/bash
 # seedround.sh <prop> : confirm the three changes an agent left in /tmp/wt4-<prop>/out and run the property's quick check on each
 P=$1
-WT=/tmp/wt4-$P
+WT=/tmp/${WTP:-wt4}-$P
+R=${ROUND:-agent3}
 rm -rf /tmp/seedin-$P; mkdir -p /tmp/seedin-$P
 cp -r $WT/out/* /tmp/seedin-$P/ 2>/dev/null
 rm -rf $WT/out $WT/_out
@@ -9,8 +10,8 @@ for i in 1 2 3; do
   d=/tmp/seedin-$P/change$i
   [ -f $d/patch.diff ] || continue
   needs=$(tr '\n' ' ' < $d/README.md | cut -c1-900)
-  python3 /verif/seeds.py confirm $WT $d/patch.diff $d/demo_test.go $P-agent3-$i $P "$needs" 2>&1 | grep -v WARNING
+  python3 /verif/seeds.py confirm $WT $d/patch.diff $d/demo_test.go $P-$R-$i $P "$needs" 2>&1 | grep -v WARNING
 done
 for i in 1 2 3; do
-  [ -d /verif/seeded/$P-agent3-$i ] && python3 /verif/seeds.py run-scratch $P-agent3-$i quick 2>&1 | grep -v WARNING
+  [ -d /verif/seeded/$P-$R-$i ] && python3 /verif/seeds.py run-scratch $P-$R-$i quick 2>&1 | grep -v WARNING
 done
